@@ -61,10 +61,11 @@ REGISTRY["C01"] = {
              "distinct = hash of that descriptor. Non-trivial = the program has >=1 gateway/loop/conditional-task block AND (>=2 requests pending at once at some step "
              "OR a loop iteration was taken OR gateways of different kinds are nested). The main campaign constructs around listed findings (counted in "
              "excluded_by_construction is implicit: generator options); a smaller unrestricted campaign keeps them and attributes a failure to a finding only if "
-             "structural predicate and symptom both match."),
+             "structural predicate and symptom both match. TestC01Twice: two instances, one after the other, from ONE parsed model with different variable / data-object values, each in lock-step: what the first did must not show in the second."),
     "assumptions": ["no real-time timers are armed in generated programs (quiescence reasoning)",
                     "end events inside sub-processes are not observable on the instance trace stream (engine filters them); only root-level end events are compared"],
     "tests": [
+        {"name": "TestC01Twice", "checks": {"quick": 60, "thorough": 1500}, "shards": {"quick": 8, "thorough": 8}, "gomaxprocs": [4, 1, 16, 2]},
         {"name": "TestC01Lockstep", "checks": {"quick": 250, "thorough": 6000}, "shards": {"quick": 16, "thorough": 32},
          "gomaxprocs": [4, 2, 1, 8]},
         {"name": "TestC01Lockstep", "label": "TestC01Lockstep-unrestricted", "env": {"VERIF_UNRESTRICTED": "1"},
